@@ -73,15 +73,20 @@ C01_CLASS = ("InvCrashSafe", "InvDurable")
 C10_CLASS = ("InvNoOrphan",)
 
 
+def _inv(r):
+    """names of the invariants a trace validation reported (declared INVARIANTs or the in-step checks)"""
+    return list(r.violated) + [n for n, _ in getattr(r, "invfail", [])]
+
+
 def owns_c01(why, evt, r):
-    if r.violated:
-        return any(v in C01_CLASS for v in r.violated)
+    if _inv(r):
+        return any(v in C01_CLASS for v in _inv(r))
     return bool(r.rejected) and evt.get("e") in ("commit", "meta", "create", "term", "sync", "call", "reset", "dropw", "man")
 
 
 def owns_c10(why, evt, r):
-    if r.violated:
-        return any(v in C10_CLASS for v in r.violated)
+    if _inv(r):
+        return any(v in C10_CLASS for v in _inv(r))
     return bool(r.rejected) and evt.get("e") in ("delete", "gc", "end", "regs", "fresh")
 
 
